@@ -217,5 +217,5 @@ META = {
     "level": "Static decision that wherever two prefix operators written apart would fuse into another token under the tokenizer's longest-match rule the printer separates them, that binary operators are printed with separators "
              "(only member/scope operators tight), that string and character literals are escaped invertibly with agreeing delimiters, that each of the expression node classes prints every child it stores in source order, and that "
              "explicit parentheses are printed. These hold for every parsed program; the tests print a fixed set of expressions.",
-    "note": "Does not decide evaluation equivalence of printed programs nor statement/declaration printers (value-level / not anchored to a finite table).",
+    "note": "Does not decide evaluation equivalence of printed programs nor statement/declaration printers (value-level / not anchored to a finite table). An outside dynamic probe (DESIGN 10.9, probes/P15) found printer / parser defects no rule here reports: a cast followed by `(` or a sign is mis-parsed, adjacent string literals are merged textually, literal prefixes and raw strings are dropped, sizeof gains parentheses on every print, a declaration used as a condition prints a stray `;`.",
 }
